@@ -60,6 +60,7 @@ theorem inv_step (h : Heap) (hi : Inv h) (s : HStep) : Inv (h.step s) := by
     · exact hi
   | invert c a => simp only [Heap.step]; split <;> (first | exact hi | exact inv_alloc h hi _ _ _ _ _ _ _)
   | lshift c a n => simp only [Heap.step]; split <;> (first | exact hi | exact inv_alloc h hi _ _ _ _ _ _ _)
+  | rshiftKeep c a n => simp only [Heap.step]; split <;> (first | exact hi | exact inv_alloc h hi _ _ _ _ _ _ _)
   | index v a i =>
     simp only [Heap.step]
     split
